@@ -154,13 +154,13 @@ var witnesses = []witness{
 
 // single-document witnesses compared with Spec.ExcC14N by the predicate (canon ops)
 var specWitnesses = []struct{ doc, path string }{
-	{`<e xmlns:a="urn:z" xmlns:b="urn:y" a:x="1" b:y="2"/>`, "r"},                  // (i) attribute order by prefix vs by URI
-	{`<e xmlns:a="urn:a" a:x="1" xml:lang="en"/>`, "r"},                             // xml: attribute among prefixed ones ("http://www.w3..." < "urn:a")
-	{`<e xmlns:z="urn:a" z:x="1" xml:lang="en"/>`, "r"},                             // xml: attribute, orders agree
+	{`<e xmlns:a="urn:z" xmlns:b="urn:y" a:x="1" b:y="2"/>`, "r"},                      // (i) attribute order by prefix vs by URI
+	{`<e xmlns:a="urn:a" a:x="1" xml:lang="en"/>`, "r"},                                // xml: attribute among prefixed ones ("http://www.w3..." < "urn:a")
+	{`<e xmlns:z="urn:a" z:x="1" xml:lang="en"/>`, "r"},                                // xml: attribute, orders agree
 	{`<a xmlns:p="u1"><p:b p:k="1"><c xmlns:p="u2"><p:d p:k="2"/></c></p:b></a>`, "r"}, // (iii) re-bound prefix
-	{`<a>t<?pi data?></a>`, "r"},                                                    // processing instruction inside the subtree
-	{`<a xmlns="u"><b xmlns=""><c/></b></a>`, "r"},                                  // (iv) default namespace undeclared inside the subtree
-	{`<a xmlns:xmlns="urn:bad"><xmlns:b/></a>`, "r"},                                // prefix literally named xmlns (not namespace-well-formed)
+	{`<a>t<?pi data?></a>`, "r"},                                                       // processing instruction inside the subtree
+	{`<a xmlns="u"><b xmlns=""><c/></b></a>`, "r"},                                     // (iv) default namespace undeclared inside the subtree
+	{`<a xmlns:xmlns="urn:bad"><xmlns:b/></a>`, "r"},                                   // prefix literally named xmlns (not namespace-well-formed)
 }
 
 /* ---------- Gen ---------- */
@@ -483,8 +483,17 @@ func doCanon(mode string, docb []byte, path string) string {
 	return "ok " + hx.Hex(out)
 }
 
+// Handle runs one C19 op; usable from the shared dispatcher (properties that reuse C19 ops, e.g. C05)
+func Handle(f []string) string {
+	return handleOp(f)
+}
+
 func Impl() {
-	hx.EachLine(func(f []string) string {
+	hx.EachLine(handleOp)
+}
+
+func handleOp(f []string) string {
+	{
 		switch f[0] {
 		case "ecdsa":
 			return doEcdsa(int(hx.Atoi(f[1])), hx.MustUnHex(f[2]), hx.MustUnHex(f[3]))
@@ -508,7 +517,7 @@ func Impl() {
 			return doIdent(f[1], f[2], uint64(hx.Atoi(f[3])))
 		}
 		return "bad-op"
-	})
+	}
 }
 
 /* ---------- identity fields ---------- */
